@@ -33,7 +33,8 @@ PROPERTIES = {
     },
     "C07": {
         "title": "memory stays valid until the session leaves",
-        "jobs": [{"bin": "h_proto_s3", "args": ["epoch"], "subshards": {"quick": 5, "thorough": 16}}],
+        "jobs": [{"bin": "h_proto_s3", "args": ["epoch", "--skip", "+third"], "subshards": {"quick": 4, "thorough": 16}},
+                 {"bin": "h_proto_s3", "args": ["epoch", "--only", "+third"], "subshards": {"quick": 12, "thorough": 16}}],
         "accept": r"epoch:|crash",
         "deadline": {"quick": 200, "thorough": 2400},
         "rule": E1_RULE + "; coarse mode: tree operations are atomic steps, every access of the session table, the epoch, "
